@@ -48,7 +48,7 @@ func fromProto(m *proto.Message, depth int) (v resp.Value, absent bool, err erro
 	if m == nil {
 		return resp.Value{}, true, nil
 	}
-	if depth > 100 {
+	if depth > 1000 {
 		return resp.Value{}, false, fmt.Errorf("too deep")
 	}
 	switch m.Type {
